@@ -593,8 +593,16 @@ main (int argc, char **argv)
                       vh_stat ("state_cap_hits", 1);
                       continue;
                     }
-                  add_node (h, cur, oi, nodes[cur].depth + 1, scratch, e);
+                  int nn = add_node (h, cur, oi, nodes[cur].depth + 1, scratch, e);
                   vh_statmax ("max_depth", nodes[cur].depth + 1);
+                  if (nn % 4001 == 7 || (nodes[nn].depth == 4 && nn % 9973 == 11))
+                    {
+                      char tr[200], nm[900];
+                      trace_of (nn, -1, tr, sizeof tr);
+                      names_of (tr, nm, sizeof nm);
+                      vh_sample ("{\"history\":\"%s\",\"depth\":%d,\"pass\":\"%s\",\"errno_after\":%d}", vh_js (nm, strlen (nm)), nodes[nn].depth,
+                                 pass == 0 ? "complete alphabet" : "sub-alphabet", e);
+                    }
                 }
             }
         }
